@@ -62,6 +62,11 @@ type Result struct {
 type Facts struct {
 	Spellings map[string][]string `json:"spellings"`
 	G4OK      bool                `json:"g4_ok"`
+	// texts on which a token rule of the shipped lexer tables and the same rule of the grammar file disagree (extract/atn.go)
+	LexerATNWit []struct {
+		Rule    string `json:"rule"`
+		TextHex string `json:"text_hex"`
+	} `json:"lexer_atn_witnesses"`
 }
 
 type Ctx struct {
@@ -229,6 +234,17 @@ func main() {
 		if err == nil {
 			json.Unmarshal(b, &ctx.Facts)
 		}
+	}
+	for _, w := range ctx.Facts.LexerATNWit {
+		var rs []rune
+		for _, f := range strings.Fields(w.TextHex) {
+			if v, err := strconv.ParseInt(f, 16, 32); err == nil {
+				rs = append(rs, rune(v))
+			}
+		}
+		t := string(rs)
+		// the text alone and where a token of its kind can stand in a rule
+		corpusTexts = append(corpusTexts, t, "x eq "+t, t+" pr", "x"+t+"eq"+t+"1", "x in ["+t+"]", "("+t+")", "x"+t+"pr", "x eq 1"+t+"and"+t+"y eq 2", "x eq 1"+t)
 	}
 	if ctx.Facts.Spellings == nil {
 		ctx.Facts.Spellings = map[string][]string{}
